@@ -644,6 +644,30 @@ func TestC03(t *testing.T) {
 			nChain: 60 + rng.Intn(200), batch: []int{1, 4, 64}[rng.Intn(3)], gate: gate, trust: trust, bifGap: rng.Chance(20), script: randomScript(maxActs)})
 	}
 	corpusLateAdd(t, w) // always first: the check-then-act window of setLocalHead on the real code
+	// and the two schedules with delayed Head() calls that move the shim head into a list the loop is about to append (F23)
+	for _, kind := range []string{"range", "answer"} {
+		run, ok, err := syncfx.RunStraddle(kind)
+		if err != nil {
+			t.Fatalf("corpus straddle/%s: %v", kind, err)
+		}
+		if !ok {
+			t.Logf("corpus case straddle/%s: the Head() calls did not park inside networkHead (call site changed); case not generated", kind)
+			continue
+		}
+		class := "corpus/straddle_" + kind
+		res := make([]string, len(run.Results))
+		for i, x := range run.Results {
+			res[i] = fmt.Sprint(x)
+		}
+		hs := make([]string, len(run.Heights))
+		for i, x := range run.Heights {
+			hs[i] = fmt.Sprint(x)
+		}
+		term := fmt.Sprintf("Case03 %s 0 false %d %s %s %s %s %s %s %d", emit.Z(run.Drift), run.Tail, run.Init, run.Chain, emit.List(run.Acts),
+			emit.List(res), emit.List(run.Probe), emit.List(hs), run.Hashes)
+		w.Add(term, map[string]any{"class": class, "what": run.Note}, class, true)
+		w.Count("class", class)
+	}
 	for _, sc := range scs {
 		runScenario(t, w, sc, rng)
 	}
